@@ -268,8 +268,10 @@ def aggregate(records, cases):
 
 def coverage_check(records, cases, tier):
     per = aggregate(records, cases)["interruption_points_per_solver"]
-    need = 3 if tier == "quick" else 12
     for sv in ("vi", "pi", "rvi", "per", "sa"):
+        # policy iteration converges within 3-6 iterations on these problems: the number of interruption points that
+        # exist (k < n_conv) is small whatever the harness does (seed 2 offered 11 over five problems)
+        need = 3 if tier == "quick" else (6 if sv == "pi" else 12)
         if per.get(sv, 0) < need:
             return f"only {per.get(sv, 0)} interruption points judged for {sv} (< {need})"
     return None
